@@ -80,6 +80,32 @@ theorem stream_abort (pre post : List Reg) (r : Reg) (started : Nat) (vals : Reg
     have h2 := ih (started + 1) (fun x hx => hok x (by simp [hx]))
     simp [streamL, cancelled, h1, h2]
 
+/-- **The failing register's error wins over a later cancellation.** If the context ends only after the read of the
+    failing register has started — while that register is being read (`k = pre.length + 1`: a poll with a timeout against
+    a device that refuses or has died), or any time later — the run still ends with that register's error, not with
+    ErrCtxDone; the registers before it are delivered, nothing after it is read. -/
+theorem stream_abort_before_cancel (pre post : List Reg) (r : Reg) (k : Nat) (vals : Reg → Val) (e : Err) (n : String)
+    (hok : ∀ x ∈ pre, readReg tr enums fls x = .ok (vals x)) (hfail : readReg tr enums fls r = .err e n)
+    (hk : pre.length < k) :
+    streamL tr enums fls (some k) (pre ++ r :: post) 0 =
+      (pre.flatMap (fun x => [.read x.address, .cb x.name (vals x)]) ++ [.read r.address], some (e, n)) := by
+  have gen : ∀ (pre : List Reg) (started : Nat), (∀ x ∈ pre, readReg tr enums fls x = .ok (vals x)) → started + pre.length < k →
+      streamL tr enums fls (some k) (pre ++ r :: post) started =
+        (pre.flatMap (fun x => [.read x.address, .cb x.name (vals x)]) ++ [.read r.address], some (e, n)) := by
+    intro pre
+    induction pre with
+    | nil =>
+      intro started _ hk
+      have hc : cancelled (some k) started = false := by simp [cancelled]; simp at hk; omega
+      simp [streamL, hc, hfail]
+    | cons p pre ih =>
+      intro started hok hk
+      have h1 := hok p (by simp)
+      have h2 := ih (started + 1) (fun x hx => hok x (by simp [hx])) (by simp at hk; omega)
+      have hc : cancelled (some k) started = false := by simp [cancelled]; simp at hk; omega
+      simp [streamL, hc, h1, h2]
+  exact gen pre 0 hok (by omega)
+
 /-- **Stop on cancellation.** Once the context is observed cancelled (after `k` reads have started) no
     further register is read; if any remained, ErrCtxDone is returned, otherwise the run had already finished. -/
 theorem stream_cancel (pre post : List Reg) (k : Nat) (vals : Reg → Val)
